@@ -20,6 +20,7 @@ import (
 	"runtime/pprof"
 	"slices"
 	"sync"
+	"sync/atomic"
 
 	. "gethverif/harness/hxlib"
 	"github.com/ethereum/go-ethereum/common"
@@ -65,6 +66,40 @@ func catchPanic(f func()) (panicked bool) {
 	}()
 	f()
 	return false
+}
+
+var op8024 = map[int]vm.OpCode{11: vm.DUPN, 12: vm.SWAPN, 13: vm.EXCHANGE}
+
+// spec8024 is EIP-8024 written from the EIP (not from instructions.go): items needed and the
+// resulting private stack. DUPN n: push the n-th item; SWAPN n: swap the top with the (n+1)-th;
+// EXCHANGE n m: swap the (n+1)-th with the (m+1)-th. Immediates: n = (x+145) mod 256; pairs via x^143.
+func spec8024(code, x int, p []uint256.Int) (need int, out []uint256.Int) {
+	n := (x + 145) % 256
+	switch code {
+	case 11:
+		if len(p) < n {
+			return n, p
+		}
+		return n, append(p, p[len(p)-n])
+	case 12:
+		if len(p) < n+1 {
+			return n + 1, p
+		}
+		p[len(p)-1], p[len(p)-1-n] = p[len(p)-1-n], p[len(p)-1]
+		return n + 1, p
+	default:
+		k := x ^ 143
+		q, r := k/16, k%16
+		a, b := r+1, 29-q
+		if q < r {
+			a, b = q+1, r+1
+		}
+		if len(p) < max(a, b)+1 {
+			return max(a, b) + 1, p
+		}
+		p[len(p)-1-a], p[len(p)-1-b] = p[len(p)-1-b], p[len(p)-1-a]
+		return max(a, b) + 1, p
+	}
 }
 
 func boundsOf(op vm.OpCode) (int, int) {
@@ -224,6 +259,10 @@ func runArena(l SL) Result {
 					asWord(ol[1])
 				case 5, 6, 7:
 					argn(1)
+				case 11, 12, 13:
+					if argn(1) < 0 {
+						shape("immediate out of range")
+					}
 				case 8:
 					argn(1)
 					asWord(ol[2])
@@ -272,6 +311,12 @@ func runArena(l SL) Result {
 				}
 				mn, mx = arg+1, stackLimit // an operation that needs arg+1 items and neither pops nor pushes
 			case 9:
+			case 11, 12, 13: // EIP-8024: the jump table's bounds here, the operand's depth inside the operation
+				arg = argn(1)
+				if arg < 0 {
+					shape("immediate out of range")
+				}
+				mn, mx = boundsOf(op8024[code])
 			default:
 				shape("unknown op")
 			}
@@ -335,6 +380,35 @@ func runArena(l SL) Result {
 					ob = L(I(0))
 				case 9:
 					ob = L(I(4), I(int64(vm.VerifC28Len(s))))
+				case 11, 12, 13:
+					if arg > 255 { // not a byte
+						ob = errObs(5)
+						return
+					}
+					err := vm.VerifC28Op8024(op8024[code], s, byte(arg))
+					var su *vm.ErrStackUnderflow
+					var io *vm.ErrInvalidOpCode
+					switch {
+					case err == nil:
+						ob = L(I(0))
+						// reference: EIP-8024 on the private stack; a success that needs more items
+						// than the frame holds has reached below the frame base
+						need, upd := spec8024(code, arg, p)
+						if need > len(p) {
+							fail("%s with immediate %#x succeeded on a frame of %d items, it needs %d: it reached below the frame base", op8024[code], arg, len(p), need)
+						} else {
+							ref[n-1] = upd
+							res.Tags = append(res.Tags, "ok-"+op8024[code].String())
+						}
+					case errors.As(err, &su):
+						ob = errObs(1)
+						res.Tags = append(res.Tags, "underflow-"+op8024[code].String())
+					case errors.As(err, &io):
+						ob = errObs(5)
+					default:
+						ob = errObs(9)
+						fail("unexpected error %v", err)
+					}
 				}
 			})
 			if pan {
@@ -586,24 +660,64 @@ func be4(v uint64) []byte {
 	return b[:]
 }
 
-// T0: forwards calldata to the program with exactly gas G, returns success || gas left || returndata
+// Every trampoline keeps live SENTINEL words on its own stack across the CALL (derived from
+// GASPRICE, which the harness sets per run and which generated programs never read), and hands
+// them back: a callee that reads below its frame base returns run-dependent data, one that
+// writes there is caught red-handed.
+//
+// T0: s1 = GASPRICE, s2 = ~GASPRICE, s3 = GASPRICE+1; forwards calldata to the program with exactly
+// gas G; returns success || gas left || s3 || s2 || s1 || returndata
 func codeT0(gas uint64) []byte {
-	c := []byte{0x36, 0x5f, 0x5f, 0x37, 0x5f, 0x5f, 0x36, 0x5f, 0x5f, 0x61}
-	c = append(c, 0x10, 0x00)
-	c = append(c, 0x63)
+	c := []byte{0x3a, 0x3a, 0x19, 0x3a, 0x60, 0x01, 0x01}
+	c = append(c, 0x36, 0x5f, 0x5f, 0x37, 0x5f, 0x5f, 0x36, 0x5f, 0x5f, 0x61, 0x10, 0x00, 0x63)
 	c = append(c, be4(gas)...)
-	c = append(c, 0xf1, 0x5f, 0x52, 0x5a, 0x60, 0x20, 0x52, 0x3d, 0x5f, 0x60, 0x40, 0x3e, 0x3d, 0x60, 0x40, 0x01, 0x5f, 0xf3)
+	c = append(c, 0xf1, 0x5f, 0x52, 0x5a, 0x60, 0x20, 0x52, 0x60, 0x40, 0x52, 0x60, 0x60, 0x52, 0x60, 0x80, 0x52,
+		0x3d, 0x5f, 0x60, 0xa0, 0x3e, 0x3d, 0x60, 0xa0, 0x01, 0x5f, 0xf3)
 	return c
 }
 
-// Tk (k >= 1): forwards calldata to T(k-1) with exactly the given gas and returns its return data
+// Tk (k >= 1): s1 = GASPRICE, s2 = ~GASPRICE; forwards calldata to T(k-1) with exactly the given
+// gas; returns returndata || s2 || s1
 func codeTk(k int, gas uint64) []byte {
-	c := []byte{0x36, 0x5f, 0x5f, 0x37, 0x5f, 0x5f, 0x36, 0x5f, 0x5f, 0x61}
+	c := []byte{0x3a, 0x3a, 0x19, 0x36, 0x5f, 0x5f, 0x37, 0x5f, 0x5f, 0x36, 0x5f, 0x5f, 0x61}
 	c = append(c, be2(0x2000+k-1)...)
 	c = append(c, 0x63)
 	c = append(c, be4(gas)...)
-	c = append(c, 0xf1, 0x50, 0x3d, 0x5f, 0x5f, 0x3e, 0x3d, 0x5f, 0xf3)
+	c = append(c, 0xf1, 0x50, 0x3d, 0x5f, 0x5f, 0x3e, 0x3d, 0x52, 0x3d, 0x60, 0x20, 0x01, 0x52, 0x3d, 0x60, 0x40, 0x01, 0x5f, 0xf3)
 	return c
+}
+
+// sentinel of a run: the gas price handed to the EVM
+func sentinelOf(salt uint64) *uint256.Int {
+	var b [8]byte
+	binary.BigEndian.PutUint64(b[:], salt)
+	h := sha256.Sum256(b[:])
+	return new(uint256.Int).SetBytes(h[:])
+}
+
+// stripSentinels checks and removes what the trampolines appended; "" = every caller's live
+// stack items came back unchanged
+func stripSentinels(ret []byte, depth int, gp *uint256.Int) ([]byte, string) {
+	s1 := gp.Bytes32()
+	s2 := new(uint256.Int).Not(gp).Bytes32()
+	s3 := new(uint256.Int).AddUint64(gp, 1).Bytes32()
+	for k := depth; k >= 1; k-- {
+		if len(ret) < 64 {
+			return ret, ""
+		}
+		tail := ret[len(ret)-64:]
+		if !bytes.Equal(tail[:32], s2[:]) || !bytes.Equal(tail[32:], s1[:]) {
+			return ret, fmt.Sprintf("the live stack items of trampoline T%d changed across its CALL: %x, want %x%x", k, tail, s2, s1)
+		}
+		ret = ret[:len(ret)-64]
+	}
+	if len(ret) < 0xa0 {
+		return ret, ""
+	}
+	if !bytes.Equal(ret[0x40:0x60], s3[:]) || !bytes.Equal(ret[0x60:0x80], s2[:]) || !bytes.Equal(ret[0x80:0xa0], s1[:]) {
+		return ret, fmt.Sprintf("the live stack items of the caller T0 changed across its CALL: %x, want %x%x%x", ret[0x40:0xa0], s3, s2, s1)
+	}
+	return append(append([]byte{}, ret[:0x40]...), ret[0xa0:]...), ""
 }
 
 func chainGas(g uint64) [maxChain + 1]uint64 {
@@ -675,6 +789,7 @@ type prog struct {
 }
 
 type evmResult struct {
+	note     string // "" or what went wrong outside the compared fields (panic, caller's stack changed)
 	ret      []byte
 	gasLeft  uint64
 	errClass int
@@ -737,7 +852,7 @@ type shared struct {
 // one execution of a program in a brand-new state with a brand-new EVM.
 // depth < 0: the program is the transaction's destination; depth >= 0: reached through
 // T(depth) -> ... -> T0 -> program.
-func execute(cfgsel int, p prog, depth int, sh *shared, mode int, release bool) evmResult {
+func execute(cfgsel int, p prog, depth int, sh *shared, mode int, release bool, salt uint64) (r evmResult) {
 	// every run gets a brand-new StateDB over the (never written) empty backing database
 	db, _ := state.New(types.EmptyRootHash, backingDB())
 	cg := chainGas(p.gas)
@@ -759,7 +874,7 @@ func execute(cfgsel int, p prog, depth int, sh *shared, mode int, release bool) 
 	}
 	cfg := &vmrt.Config{
 		ChainConfig: chainConfigs[cfgsel], GasLimit: gas, State: db,
-		Difficulty: new(big.Int), GasPrice: new(big.Int), Value: new(big.Int), BlockNumber: big.NewInt(1), Time: 1,
+		Difficulty: new(big.Int), GasPrice: sentinelOf(salt).ToBig(), Value: new(big.Int), BlockNumber: big.NewInt(1), Time: 1,
 		BaseFee: big.NewInt(params.InitialBaseFee), BlobBaseFee: big.NewInt(params.BlobTxMinBlobGasprice), Random: new(common.Hash),
 		GetHashFn: func(n uint64) common.Hash { return common.BigToHash(new(big.Int).SetUint64(n + 77)) },
 	}
@@ -769,6 +884,12 @@ func execute(cfgsel int, p prog, depth int, sh *shared, mode int, release bool) 
 		leftGas uint64
 		err     error
 	)
+	defer func() {
+		// a Go panic inside the interpreter (e.g. an index below the arena) is a result too
+		if e := recover(); e != nil {
+			r = evmResult{errClass: 99, note: fmt.Sprintf("the EVM panicked: %v", e)}
+		}
+	}()
 	if sh == nil || mode == 0 {
 		// the public entry point: a brand-new EVM with its own jumpdest map and no precompile cache
 		ret, leftGas, err = vmrt.Call(dest, p.input, cfg)
@@ -791,7 +912,10 @@ func execute(cfgsel int, p prog, depth int, sh *shared, mode int, release bool) 
 			env.Release()
 		}
 	}
-	r := evmResult{ret: ret, gasLeft: leftGas, errClass: errClass(err)}
+	r = evmResult{ret: ret, gasLeft: leftGas, errClass: errClass(err)}
+	if depth >= 0 && err == nil {
+		r.ret, r.note = stripSentinels(ret, depth, sentinelOf(salt))
+	}
 	h := sha256.New()
 	for _, lg := range db.Logs() {
 		h.Write(lg.Address[:])
@@ -874,14 +998,19 @@ func runEVM(l SL) Result {
 	okRef := 0
 	for i, p := range progs {
 		coldPools()
-		refDirect[i] = execute(cfgsel, p, -1, nil, 0, false)
-		refChain[i] = execute(cfgsel, p, 0, nil, 0, false)
+		refDirect[i] = execute(cfgsel, p, -1, nil, 0, false, uint64(2*i))
+		refChain[i] = execute(cfgsel, p, 0, nil, 0, false, uint64(2*i+1))
+		for _, rr := range []evmResult{refDirect[i], refChain[i]} {
+			if rr.note != "" {
+				fail("program %d (template %d) in isolation: %s", i, p.tmpl, rr.note)
+			}
+		}
 		if p.hasExpect {
 			if refDirect[i].errClass != 0 || !bytes.Equal(refDirect[i].ret, p.expect) {
 				fail("program %d (template %d) in isolation: %s, expected ret=%x", i, p.tmpl, refDirect[i], trunc(p.expect))
 			}
 			rc := refChain[i].ret
-			if refChain[i].errClass != 0 || len(rc) < 64 || rc[31] != 1 || !bytes.Equal(rc[64:], p.expect) {
+			if refChain[i].errClass != 0 || refChain[i].note != "" || len(rc) < 64 || rc[31] != 1 || !bytes.Equal(rc[64:], p.expect) {
 				fail("program %d (template %d) below T0 in isolation: %s, expected success and ret=%x", i, p.tmpl, refChain[i], trunc(p.expect))
 			}
 		}
@@ -891,8 +1020,13 @@ func runEVM(l SL) Result {
 		res.Tags = append(res.Tags, fmt.Sprintf("tmpl%d", p.tmpl), fmt.Sprintf("err%d", refDirect[i].errClass))
 	}
 	sh := &shared{jd: core.NewJumpDestCache(), pc: vm.NewPrecompileCache()}
+	var saltCtr atomic.Uint64
+	saltCtr.Store(1000)
 	check := func(who string, r run) {
-		got := execute(cfgsel, progs[r.idx], r.depth, sh, r.mode, release)
+		got := execute(cfgsel, progs[r.idx], r.depth, sh, r.mode, release, saltCtr.Add(1))
+		if got.note != "" {
+			fail("%s: program %d (template %d) at depth %d: %s", who, r.idx, progs[r.idx].tmpl, r.depth, got.note)
+		}
 		if r.depth < 0 {
 			if !sameResult(got, refDirect[r.idx], true) {
 				fail("%s: program %d (template %d) direct, cache mode %d: %s; in isolation: %s", who, r.idx, progs[r.idx].tmpl, r.mode, got, refDirect[r.idx])
@@ -929,6 +1063,176 @@ func runEVM(l SL) Result {
 	}
 	res.Tags = append(res.Tags, "evm", fmt.Sprintf("cfg%d", cfgsel), fmt.Sprintf("par%d", par), fmt.Sprintf("maxdepth%d", maxd))
 	res.NonTrivial = okRef > 0 && len(runs) >= 2 && maxd >= 1
+	return res
+}
+
+// ------------------------------------------------------------------ kind 4: call histories, fresh vs shared
+
+func histAddr(a int) common.Address { return common.BigToAddress(big.NewInt(int64(0x5000 + a))) }
+
+type histWorld struct {
+	db    *state.StateDB
+	cfg   *vmrt.Config
+	rules params.Rules
+	evm   *vm.EVM // world C: one EVM for the whole history
+}
+
+func newHistWorld(cfgsel int) *histWorld {
+	db, _ := state.New(types.EmptyRootHash, backingDB())
+	for a, c := range helperCode {
+		db.CreateAccount(a)
+		db.SetCode(a, c, tracing.CodeChangeUnspecified)
+	}
+	cfg := &vmrt.Config{
+		ChainConfig: chainConfigs[cfgsel], GasLimit: 30_000_000, State: db,
+		Difficulty: new(big.Int), GasPrice: big.NewInt(7), Value: new(big.Int), BlockNumber: big.NewInt(1), Time: 1,
+		BaseFee: big.NewInt(params.InitialBaseFee), BlobBaseFee: big.NewInt(params.BlobTxMinBlobGasprice), Random: new(common.Hash),
+		GetHashFn: func(n uint64) common.Hash { return common.BigToHash(new(big.Int).SetUint64(n + 77)) },
+	}
+	return &histWorld{db: db, cfg: cfg, rules: cfg.ChainConfig.Rules(cfg.BlockNumber, true, cfg.Time)}
+}
+
+func (w *histWorld) setCode(a common.Address, code []byte) {
+	if !w.db.Exist(a) {
+		w.db.CreateAccount(a)
+	}
+	w.db.SetNonce(a, 1, tracing.NonceChangeUnspecified)
+	w.db.SetCode(a, code, tracing.CodeChangeUnspecified)
+	w.db.Finalise(w.rules)
+}
+
+// mode 0: brand-new EVM, its own caches, nothing given back to the pools
+// mode 1: brand-new EVM, chain-wide shared jumpdest and precompile caches, arena released to the pool
+// mode 2: ONE EVM for the whole history (its own jumpdest map, its arena reused call after call)
+func (w *histWorld) call(mode int, sh *shared, dest common.Address, input []byte, gas uint64) (r evmResult) {
+	defer func() {
+		if e := recover(); e != nil {
+			r = evmResult{errClass: 99, note: fmt.Sprintf("the EVM panicked: %v", e)}
+		}
+	}()
+	var env *vm.EVM
+	switch mode {
+	case 0:
+		env = vmrt.NewEnv(w.cfg)
+	case 1:
+		env = vmrt.NewEnv(w.cfg)
+		env.SetJumpDestCache(sh.jd)
+		env.SetPrecompileCache(sh.pc)
+		defer env.Release()
+	default:
+		if w.evm == nil {
+			w.evm = vmrt.NewEnv(w.cfg)
+		}
+		env = w.evm
+		env.SetTxContext(vm.TxContext{Origin: w.cfg.Origin, GasPrice: uint256.MustFromBig(w.cfg.GasPrice)})
+	}
+	nlogs := len(w.db.Logs())
+	w.db.Prepare(w.rules, w.cfg.Origin, w.cfg.Coinbase, &dest, vm.ActivePrecompiles(w.rules), nil)
+	ret, left, err := env.Call(w.cfg.Origin, dest, input, vm.NewGasBudget(gas, 0), new(uint256.Int))
+	w.db.Finalise(w.rules)
+	r = evmResult{ret: ret, gasLeft: left.ExecutionGas, errClass: errClass(err)}
+	h := sha256.New()
+	for _, lg := range w.db.Logs()[nlogs:] {
+		h.Write(lg.Address[:])
+		for _, t := range lg.Topics {
+			h.Write(t[:])
+		}
+		h.Write(lg.Data)
+	}
+	copy(r.logs[:], h.Sum(nil))
+	return r
+}
+
+func runHistory(l SL) Result {
+	if len(l) != 3 {
+		shape("history case")
+	}
+	cfgsel := AsInt(l[1])
+	if cfgsel < 0 || cfgsel >= len(chainConfigs) {
+		shape("config selector")
+	}
+	res := Result{Obs: L(I(4))}
+	var fails []string
+	coldPools()
+	sh := &shared{jd: core.NewJumpDestCache(), pc: vm.NewPrecompileCache()}
+	worlds := []*histWorld{newHistWorld(cfgsel), newHistWorld(cfgsel), newHistWorld(cfgsel)}
+	names := []string{"fresh EVM and caches per call", "shared chain-wide caches, pooled arena", "one EVM for the whole history"}
+	ncalls, nok, changed, deleg := 0, 0, 0, 0
+	for si, st := range AsList(l[2]) {
+		sl := AsList(st)
+		if len(sl) < 3 {
+			shape("step")
+		}
+		a := AsInt(sl[1])
+		if a < 0 || a >= 8 {
+			shape("account index")
+		}
+		switch AsInt(sl[0]) {
+		case 0:
+			code := AsBytes(sl[2])
+			for _, w := range worlds {
+				w.setCode(histAddr(a), code)
+			}
+			if ncalls > 0 {
+				changed++
+			}
+		case 1:
+			t := AsInt(sl[2])
+			if t < 0 || t >= 8 {
+				shape("delegation target")
+			}
+			for _, w := range worlds {
+				w.setCode(histAddr(a), types.AddressToDelegation(histAddr(t)))
+			}
+			deleg++
+		case 2:
+			if len(sl) != 4 {
+				shape("call step")
+			}
+			input, gas := AsBytes(sl[2]), AsU64(sl[3])
+			if gas < 1000 || gas > 5_000_000 {
+				shape("call gas")
+			}
+			ncalls++
+			var rs [3]evmResult
+			for m, w := range worlds {
+				rs[m] = w.call(m, sh, histAddr(a), input, gas)
+				if rs[m].note != "" && len(fails) < 4 {
+					fails = append(fails, fmt.Sprintf("step %d, call of account %d with %s: %s", si, a, names[m], rs[m].note))
+				}
+			}
+			for m := 1; m < 3; m++ {
+				if !(bytes.Equal(rs[m].ret, rs[0].ret) && rs[m].gasLeft == rs[0].gasLeft && rs[m].errClass == rs[0].errClass && rs[m].logs == rs[0].logs) && len(fails) < 4 {
+					fails = append(fails, fmt.Sprintf("step %d, call of account %d: with %s: %s; with %s: %s", si, a, names[m], rs[m], names[0], rs[0]))
+				}
+			}
+			if rs[0].errClass == 0 {
+				nok++
+			}
+			res.Tags = append(res.Tags, fmt.Sprintf("herr%d", rs[0].errClass))
+		default:
+			shape("unknown step")
+		}
+	}
+	root0 := worlds[0].db.IntermediateRoot(worlds[0].rules)
+	for m := 1; m < 3; m++ {
+		if r := worlds[m].db.IntermediateRoot(worlds[m].rules); r != root0 && len(fails) < 4 {
+			fails = append(fails, fmt.Sprintf("final state root with %s: %x; with %s: %x", names[m], r[:6], names[0], root0[:6]))
+		}
+	}
+	if worlds[2].evm != nil {
+		worlds[2].evm.Release()
+	}
+	if len(fails) > 0 {
+		res.Oracle = fmt.Sprint(fails)
+	}
+	slices.Sort(res.Tags)
+	res.Tags = slices.Compact(res.Tags)
+	res.Tags = append(res.Tags, "history", fmt.Sprintf("hcfg%d", cfgsel))
+	if changed > 0 {
+		res.Tags = append(res.Tags, "code-changed")
+	}
+	res.NonTrivial = ncalls >= 3 && nok >= 2 && changed > 0 && deleg > 0
 	return res
 }
 
@@ -1017,6 +1321,8 @@ func run(c Sx) Result {
 		return runEVM(l)
 	case 3:
 		return runPrecompile(l)
+	case 4:
+		return runHistory(l)
 	}
 	shape("unknown case kind")
 	return Result{}
